@@ -242,6 +242,14 @@ def gen_bqm_base(rng, small=False):
     if base == 'random':
         kw["num_reads"] = rng.randint(1, 5)
         kw["seed"] = rng.randint(0, 2 ** 31)
+        if rng.random() < 0.45:
+            # RandomSampler forwards **kwargs to IdentitySampler: initial_states are accepted
+            kw["ninit"] = rng.randint(1, 4)
+            kw["mismatch"] = rng.choice([None, None, None, 'drop', 'extra'])
+            kw["init_form"] = rng.choice(['dicts', 'array'])
+            kw["init_vt"] = rng.choice(['same', 'same', 'other'])
+            kw["init_raw"] = rng.random() < 0.4
+            kw["init_seed"] = rng.randint(0, 2 ** 31)
     elif base == 'sa':
         kw["num_reads"] = rng.randint(1, 3)
         kw["num_sweeps"] = rng.randint(2, 6)
@@ -255,6 +263,7 @@ def gen_bqm_base(rng, small=False):
         kw["init_form"] = rng.choice(['dicts', 'array'])
         kw["init_vt"] = rng.choice(['same', 'same', 'other'])
         kw["init_seed"] = rng.randint(0, 2 ** 31)
+        kw["init_raw"] = rng.random() < 0.3
         if kw["isg"] == 'tile' and kw["ninit"] >= 2 and rng.random() < 0.6:
             kw["num_reads"] = kw["ninit"] + rng.randint(1, 2 * kw["ninit"])      # tiling with a remainder
         elif kw["ninit"] >= 2 and rng.random() < 0.3:
@@ -560,6 +569,49 @@ def build_quad_args(prob, entry):
     return (Q,), [v for v in labels if v in used]
 
 
+def make_initial_states(c, variables, vt, kw):
+    """initial_states for IdentitySampler / RandomSampler; kw gets 'initial_states' and the
+    vartype the implementation must read them in ('_init_vt')"""
+    import random
+    r = random.Random(c["init_seed"])
+    ivt = vt if c["init_vt"] == 'same' else ('SPIN' if vt == 'BINARY' else 'BINARY')
+    vals = [0, 1] if ivt == 'BINARY' else [-1, 1]
+    order = list(variables)
+    r.shuffle(order)
+    if c.get("mismatch") == 'drop' and order:
+        order = order[1:]
+    elif c.get("mismatch") == 'extra':
+        # a foreign label: bqm.variables ^ initial_states_variables is a SYMMETRIC difference
+        order = order + ['zzz9']
+        r.shuffle(order)
+    rows = []
+    for _ in range(c["ninit"]):
+        row = [r.choice(vals) for _ in order]
+        for _try in range(20):      # prefer distinct rows: order / tiling / truncation become visible
+            if row not in rows:
+                break
+            row = [r.choice(vals) for _ in order]
+        rows.append(row)
+    if rows and order:
+        if c["init_form"] == 'dicts':
+            init = [dict(zip(order, row)) for row in rows]
+        else:
+            init = (np.array(rows, dtype=np.int8), order)
+        if c.get("init_raw"):
+            # raw samples-like: the vartype is inferred from the values, falling back to the bqm's
+            flat = [x for row in rows for x in row]
+            kw["initial_states"] = init
+            kw["_init_vt"] = 'SPIN' if -1 in flat else 'BINARY' if 0 in flat else vt
+            kw["_init_ls"] = list(order)
+            kw["_init_rows"] = rows
+        else:
+            ss = dimod.SampleSet.from_samples(init, vartype=ivt, energy=[0] * len(rows))
+            kw["initial_states"] = ss
+            kw["_init_vt"] = ivt
+            kw["_init_ls"] = list(ss.variables)
+            kw["_init_rows"] = np.asarray(ss.record.sample).tolist()
+
+
 def make_bqm_base(c, variables, vt):
     b = c["base"]
     kw = {}
@@ -568,6 +620,8 @@ def make_bqm_base(c, variables, vt):
     elif b == 'random':
         s = dimod.RandomSampler()
         kw = dict(num_reads=c["num_reads"], seed=c["seed"])
+        if c.get("ninit"):
+            make_initial_states(c, variables, vt, kw)
     elif b == 'sa':
         import random
         random.seed(c["pyseed"])
@@ -577,35 +631,10 @@ def make_bqm_base(c, variables, vt):
         s = dimod.NullSampler()
     else:
         s = dimod.IdentitySampler()
-        import random
-        r = random.Random(c["init_seed"])
-        ivt = vt if c["init_vt"] == 'same' else ('SPIN' if vt == 'BINARY' else 'BINARY')
-        vals = [0, 1] if ivt == 'BINARY' else [-1, 1]
-        order = list(variables)
-        r.shuffle(order)
-        if c.get("mismatch") == 'drop' and order:
-            order = order[1:]
-        elif c.get("mismatch") == 'extra':
-            order = order + ['zzz9']
-        rows = []
-        for _ in range(c["ninit"]):
-            row = [r.choice(vals) for _ in order]
-            for _try in range(20):      # prefer distinct rows: order / tiling / truncation become visible
-                if row not in rows:
-                    break
-                row = [r.choice(vals) for _ in order]
-            rows.append(row)
         kw = dict(initial_states_generator=c["isg"], seed=c["seed"])
         if c["num_reads"] is not None:
             kw["num_reads"] = c["num_reads"]
-        if rows and order:
-            # a row of all-equal values can not be told apart BINARY/SPIN (infer_vartype): pass a SampleSet then
-            if c["init_form"] == 'dicts':
-                init = [dict(zip(order, row)) for row in rows]
-            else:
-                init = (np.array(rows, dtype=np.int8), order)
-            kw["initial_states"] = dimod.SampleSet.from_samples(init, vartype=ivt, energy=[0] * len(rows))
-            kw["_init_vt"] = ivt
+        make_initial_states(c, variables, vt, kw)
     return s, kw
 
 
@@ -637,6 +666,8 @@ def run_bqm(c):
              "empty_problem": len(variables) == 0}
     base, kw = make_bqm_base(c, variables, vt)
     init_vt = kw.pop("_init_vt", None)
+    init_ls = kw.pop("_init_ls", None)
+    init_rows = kw.pop("_init_rows", None)
     recs = []
     objs = []
     structs = {}
@@ -665,7 +696,7 @@ def run_bqm(c):
     except BinaryQuadraticModelStructureError:
         raised = 'structure'
     except ValueError:
-        if c["base"] != 'identity':
+        if c["base"] not in ('identity', 'random'):
             raise
         raised = 'ValueError'
     feats["raised"] = raised
@@ -719,11 +750,9 @@ def run_bqm(c):
         if c["base"] == 'identity':
             g = {'none': 'GNone', 'tile': 'GTile', 'random': 'GRandom'}[c["isg"]]
             if "initial_states" in kw:
-                ini = kw["initial_states"]
-                ls = list(ini.variables)
+                ls, rows = init_ls, init_rows
                 for v in ls:
                     T.idx(v)
-                rows = np.asarray(ini.record.sample).tolist()
                 conv = 0 if init_vt == vt else (1 if vt == 'BINARY' else 2)
             else:
                 ls, rows, conv = list(bvars), [], 0
@@ -732,11 +761,23 @@ def run_bqm(c):
                 g, nr, pterm, bvl, clist([cnat(T.idx(v)) for v in ls]), cnat(conv),
                 clist([clist([cq(F(x)) for x in r]) for r in rows]), seen_t))
             feats["mismatch"] = c.get("mismatch") if "initial_states" in kw else None
-        elif raised is None or base_seen is not None:
-            if c["base"] == 'random':
-                terms.append("(CIdentity GRandom (Some %s) (PQuad %s) %s %s 0%%nat [] %s)" % (
-                    cnat(c["num_reads"]), pterm, bvl, bvl, seen_t))
+        elif c["base"] == 'random':
+            if "initial_states" in kw:
+                ls, rows = init_ls, init_rows
+                for v in ls:
+                    T.idx(v)
+                conv = 0 if init_vt == vt else (1 if vt == 'BINARY' else 2)
+            else:
+                ls, rows, conv = list(bvars), [], 0
+            terms.append("(CIdentity GRandom (Some %s) (PQuad %s) %s %s %s %s %s)" % (
+                cnat(c["num_reads"]), pterm, bvl, clist([cnat(T.idx(v)) for v in ls]), cnat(conv),
+                clist([clist([cq(F(x)) for x in r]) for r in rows]), seen_t))
+            feats["mismatch"] = c.get("mismatch") if "initial_states" in kw else None
+            if base_seen is not None:
                 terms.append(f"(CFromRows (PQuad {pterm}) {bvl} {res_term(T, base_seen)})")
+        elif raised is None or base_seen is not None:
+            if False:
+                pass
             elif c["base"] == 'sa':
                 terms.append(f"(CSa {cbool(not spin)} {bvl} {pterm} {res_term(T, base_seen)})")
                 terms.append(f"(CFromRows (PQuad {pterm}) {bvl} {res_term(T, base_seen)})")
@@ -868,6 +909,8 @@ def run_poly(c):
     bqm_rec = None
     if c["hoc"]:
         base, bkw = make_bqm_base(c, variables, vt)
+        for k in ('initial_states', '_init_vt', '_init_ls', '_init_rows'):
+            bkw.pop(k, None)       # the reduced BQM has auxiliary variables the initial states do not cover
         bqm_rec = Rec(base)
         s = dimod.HigherOrderComposite(bqm_rec)
         kw.update(bkw)
